@@ -11,19 +11,14 @@ Theorem C09_murmur_go_eq_cassandra : forall key, wf_bytes key -> murmur3_h1 key 
 Proof. exact murmur_go_eq_cassandra_lemma. Qed.
 Print Assumptions C09_murmur_go_eq_cassandra.
 
-(* The Murmur3 token of every non-empty partition key is the one Cassandra's Murmur3Partitioner assigns,
-   except when h1 is exactly Long.MIN_VALUE (Cassandra normalises it to Long.MAX_VALUE, the driver does not:
-   known finding murmur3-min-token-not-normalized, Refuted.murmur_min_value_refuted). *)
+(* The Murmur3 token of every non-empty partition key is the one Cassandra's Murmur3Partitioner assigns
+   (getToken = normalize(h1): Long.MIN_VALUE becomes Long.MAX_VALUE), and is never Long.MIN_VALUE.
+   Before the fix of finding murmur3-min-token-not-normalized this needed h1 <> Long.MIN_VALUE; the pre-fix
+   behaviour and its witness are kept in Refuted.v as a regression fact. *)
 Theorem C09_murmur_token_eq_cassandra : forall key, wf_bytes key -> key <> [] ->
-  cassandra_h1 key <> long_min -> murmur3_token key = cassandra_murmur3_token key.
-Proof. intros key Hwf Hne Hmin. apply murmur_token_iff; assumption. Qed.
+  murmur3_token key = cassandra_murmur3_token key /\ murmur3_token key <> long_min.
+Proof. exact murmur_token_eq. Qed.
 Print Assumptions C09_murmur_token_eq_cassandra.
-
-(* ... and that exclusion is exact: on every key it excludes, the two tokens do differ. *)
-Theorem C09_murmur_token_exclusion_exact : forall key, wf_bytes key -> key <> [] ->
-  cassandra_h1 key = long_min -> murmur3_token key <> cassandra_murmur3_token key.
-Proof. intros key Hwf Hne Hmin Heq. apply (murmur_token_iff key Hwf Hne) in Heq. contradiction. Qed.
-Print Assumptions C09_murmur_token_exclusion_exact.
 
 (* RandomPartitioner: for every 16-byte digest the token is abs(BigInteger(digest)) (two's complement,
    big-endian), and lies in [0, 2^127]. *)
@@ -133,11 +128,11 @@ Proof. exact routing_key_v4_lemma. Qed.
 Print Assumptions C09_routing_key_v4.
 
 (* ---- non-vacuity: the hypotheses are satisfiable by concrete, non-trivial values ------------------- *)
-(* the excluded region of C09_murmur_token_eq_cassandra is inhabited (so C09_murmur_token_exclusion_exact is
-   not vacuous): the known-finding witness *)
-Example C09_nonvacuous_exclusion :
-  wf_bytes min_witness /\ min_witness <> [] /\ cassandra_h1 min_witness = long_min.
-Proof. split; [apply wf_bytesb_spec; reflexivity|]. split; [discriminate|vm_compute; reflexivity]. Qed.
+(* the key whose h1 is Long.MIN_VALUE (the witness of the fixed finding) is inside the theorem now *)
+Example C09_min_value_key_normalised :
+  wf_bytes min_witness /\ min_witness <> [] /\ cassandra_h1 min_witness = long_min
+  /\ murmur3_token min_witness = long_max /\ cassandra_murmur3_token min_witness = long_max.
+Proof. split; [apply wf_bytesb_spec; reflexivity|]. split; [discriminate|vm_compute; repeat split; reflexivity]. Qed.
 
 Example C09_nonvacuous_tokens :
   let key := [104; 101; 108; 108; 111; 200; 255; 128; 1; 2; 3; 4; 5; 6; 7; 8; 9; 10; 11; 250] in   (* 1 block + 4 tail bytes, high bits *)
